@@ -55,7 +55,8 @@ def run(ctx):
     from rules import C05 as _c05
     from ovsa.engine import Ctx as _Ctx
     sub = _Ctx("C05", prog, ctx.root, "quick")
-    getattr(_c05, "_run_base", _c05.run)(sub)
+    from rules.round3 import run_lender as _run_lender
+    _run_lender(_c05, sub, ctx)
     n66 = 0
     for i_ in sub.instances:
         if i_["rule"] != "R5.1":
@@ -66,7 +67,7 @@ def run(ctx):
         else:
             ctx.fail("R6.6", "recount:" + i_["inst"], i_["where"], i_["what"] + " (the CPU's running-thread channel, "
                      "select of its multiplexers, keeps a stale thread)")
-    ctx.need(n66 >= 20, "R6.6: only %d recount instances" % n66)
+    ctx.need(n66 >= 20 or getattr(sub, "lender_broken", None), "R6.6: only %d recount instances" % n66)
 
     # ---- R6.5 ----------------------------------------------------------------
     from rules.C05 import cpu_update_cases
@@ -382,3 +383,8 @@ def run(ctx):
              "the state labelled Resting in nOS-V and Nanos6 alike, not the Progressing a thread starts with")
     from rules import round5
     round5.check_idle_default(ctx, "R6.10")
+    ctx.rule("R6.11", "the thread timeline records the output of each channel's tracking multiplexer (every tracking "
+             "mode), and track_init keeps the mode it is given")
+    from rules import round6
+    round6.check_thread_prv_uses_track_output(ctx, "R6.11")
+    round6.check_track_init_mode(ctx, "R6.11")
